@@ -270,6 +270,17 @@ static void laws(unsigned long long& unit)
 				}
 			} while(P.next());
 		}
+	// the vector overload is the scalar sampler applied in order on the same generator
+	if(mc::mine(unit++))
+		for(unsigned seed = 0; seed < 32; seed++)
+		{
+			std::mt19937 g1(seed), g2(seed);
+			V means{0.01, 3.5, 0.0, 620.0, 40.0, 1200.0};
+			std::vector<unsigned> a = Sample_Poisson(g1, means), b;
+			for(double mu : means) b.push_back(Sample_Poisson(g2, mu));
+			g_cases++;
+			if(a != b || !(g1 == g2)) fail("laws", "Sample_Poisson(vector),seed=" + std::to_string(seed), "vector_overload_differs_from_scalar_sequence", "the vector overload does not equal successive scalar calls on the same generator");
+		}
 	// Poisson with means above the rescaling step: constant and two-level sequences
 	for(double mean : {600.0, 1500.0, 5000.0})
 	{
